@@ -217,12 +217,21 @@ impl Variant {
                 _ => Err(VariantError::TypeMismatch),
             },
             Self::VInteger(i_left) => match other {
-                Self::VInteger(i_right) => Ok(Self::VInteger(i_left + i_right)),
-                Self::VLong(l_right) => Ok(Self::VLong(i_left as i64 + l_right)),
+                Self::VInteger(i_right) => i_left
+                    .checked_add(i_right)
+                    .map(Self::VInteger)
+                    .ok_or(VariantError::Overflow),
+                Self::VLong(l_right) => (i_left as i64)
+                    .checked_add(l_right)
+                    .map(Self::VLong)
+                    .ok_or(VariantError::Overflow),
                 _ => other.plus(self),
             },
             Self::VLong(l_left) => match other {
-                Self::VLong(l_right) => Ok(Self::VLong(l_left + l_right)),
+                Self::VLong(l_right) => l_left
+                    .checked_add(l_right)
+                    .map(Self::VLong)
+                    .ok_or(VariantError::Overflow),
                 _ => other.plus(self),
             },
             _ => Err(VariantError::TypeMismatch),
@@ -245,12 +254,21 @@ impl Variant {
                 _ => other.minus(self).and_then(|x| x.negate()),
             },
             Self::VInteger(i_left) => match other {
-                Self::VInteger(i_right) => Ok(Self::VInteger(i_left - i_right)),
-                Self::VLong(l_right) => Ok(Self::VLong(i_left as i64 - l_right)),
+                Self::VInteger(i_right) => i_left
+                    .checked_sub(i_right)
+                    .map(Self::VInteger)
+                    .ok_or(VariantError::Overflow),
+                Self::VLong(l_right) => (i_left as i64)
+                    .checked_sub(l_right)
+                    .map(Self::VLong)
+                    .ok_or(VariantError::Overflow),
                 _ => other.minus(self).and_then(|x| x.negate()),
             },
             Self::VLong(l_left) => match other {
-                Self::VLong(l_right) => Ok(Self::VLong(l_left - l_right)),
+                Self::VLong(l_right) => l_left
+                    .checked_sub(l_right)
+                    .map(Self::VLong)
+                    .ok_or(VariantError::Overflow),
                 _ => other.minus(self).and_then(|x| x.negate()),
             },
             _ => Err(VariantError::TypeMismatch),
@@ -273,12 +291,21 @@ impl Variant {
                 _ => other.multiply(self),
             },
             Self::VInteger(i_left) => match other {
-                Self::VInteger(i_right) => Ok(Self::VInteger(i_left * i_right)),
-                Self::VLong(l_right) => Ok(Self::VLong(i_left as i64 * l_right)),
+                Self::VInteger(i_right) => i_left
+                    .checked_mul(i_right)
+                    .map(Self::VInteger)
+                    .ok_or(VariantError::Overflow),
+                Self::VLong(l_right) => (i_left as i64)
+                    .checked_mul(l_right)
+                    .map(Self::VLong)
+                    .ok_or(VariantError::Overflow),
                 _ => other.multiply(self),
             },
             Self::VLong(l_left) => match other {
-                Self::VLong(l_right) => Ok(Self::VLong(l_left * l_right)),
+                Self::VLong(l_right) => l_left
+                    .checked_mul(l_right)
+                    .map(Self::VLong)
+                    .ok_or(VariantError::Overflow),
                 _ => other.multiply(self),
             },
             _ => Err(VariantError::TypeMismatch),
